@@ -1,6 +1,7 @@
 (* C05 — Forward compatibility: an older schema decodes data from an extended one. *)
 From Coq Require Import ZArith List Bool.
-From BP Require Import Bits Schema Spec PyRt Eqb PyEncTop PyDecProofs Evolve PyEvolve PyEvolveTop.
+From BP Require Import Bits Schema Spec PyRt Eqb PyEncTop PyDecProofs Evolve PyEvolve PyEvolveTop GoHelpers.
+From BPGen Require GenPy GenGo.
 Import ListNotations.
 Open Scope Z_scope.
 
@@ -33,6 +34,25 @@ Theorem C05_chain_trans : forall a b c,
   evolvesb a b = true -> evolvesb b c = true -> evolvesb a c = true.
 Proof. exact evolvesb_trans. Qed.
 Print Assumptions C05_chain_trans.
+
+(* Go runtime "by inspection of the same formula": the skip formulas and the skip test
+   translated from lib/go/bitproto.go (typed 64-bit int arithmetic written out) equal the
+   Python ones wherever a decoder can be: cursors below 2^40, prefix values 16-bit, at least
+   the 16 prefix bits consumed.  The Python theorem above is about exactly these formulas. *)
+Theorem C05_go_message_ito : forall i ahead,
+  small i -> 0 <= ahead < 65536 -> GenGo.message_ito i ahead = GenPy.message_ito i ahead.
+Proof. exact go_message_ito_eq. Qed.
+Print Assumptions C05_go_message_ito.
+
+Theorem C05_go_array_ito : forall i ahead cap ci,
+  0 <= i < 2 ^ 40 -> 0 <= ahead < 65536 -> 0 < cap < 65536 -> i + 16 <= ci < 2 ^ 40 ->
+  GenGo.array_ito i ahead cap ci = GenPy.array_ito i ahead cap ci.
+Proof. exact go_array_ito_eq. Qed.
+Print Assumptions C05_go_array_ito.
+
+Theorem C05_go_ito_taken : forall ito ci, GenGo.ito_taken ito ci = GenPy.ito_taken ito ci.
+Proof. exact go_ito_taken_eq. Qed.
+Print Assumptions C05_go_ito_taken.
 
 (* non-vacuity: both permitted steps at depth, followed by a field *)
 Definition s1 : ty :=
